@@ -94,15 +94,21 @@ func (t fsTexts) dump0(f fsFn) (string, J, bool) {
 	return canonDump(stripCommentsGo([]any{stripFlags(deepCopy(any(nf)))}).([]any)), nf, true
 }
 
-func fnSessCfg(thorough bool, memo string, emit bool) string {
+// fnSessCfg: bounds "quick" (2 names, 2 parameter lists, 2 bodies, 2 definitions, 3 observations), "thorough" (3 names, 1 list,
+// 2 bodies, 3 definitions, 2 observations) or "alias" (the smallest bounds in which the AliasLine deviation shows: 3 definitions).
+func fnSessCfg(bounds, memo, aliasLine string, emit bool) string {
 	b := "FALSE"
 	if emit {
 		b = "TRUE"
 	}
-	if thorough {
-		return fmt.Sprintf("CONSTANTS\n NNames = 3\n NSigs = 1\n NBodies = 2\n MaxDefs = 3\n MaxObs = 2\n MaxNew = 1\n Memo = %q\n EmitOn = %s\nINIT Init\nNEXT Next\nINVARIANT Faithful\n", memo, b)
+	k := " NNames = 2\n NSigs = 2\n NBodies = 2\n MaxDefs = 2\n MaxObs = 3\n MaxNew = 1\n"
+	switch bounds {
+	case "thorough":
+		k = " NNames = 3\n NSigs = 1\n NBodies = 2\n MaxDefs = 3\n MaxObs = 2\n MaxNew = 1\n"
+	case "alias":
+		k = " NNames = 2\n NSigs = 1\n NBodies = 2\n MaxDefs = 3\n MaxObs = 1\n MaxNew = 0\n"
 	}
-	return fmt.Sprintf("CONSTANTS\n NNames = 2\n NSigs = 2\n NBodies = 2\n MaxDefs = 2\n MaxObs = 3\n MaxNew = 1\n Memo = %q\n EmitOn = %s\nINIT Init\nNEXT Next\nINVARIANT Faithful\n", memo, b)
+	return fmt.Sprintf("CONSTANTS\n%s Memo = %q\n AliasLine = %q\n EmitOn = %s\nINIT Init\nNEXT Next\nINVARIANT Faithful\n", k, memo, aliasLine, b)
 }
 
 // fsRec: one observation of a replayed history.
@@ -191,6 +197,7 @@ func fsReplay(hist []fsOp, t fsTexts) (recs []fsRec, infra string) {
 			}
 		case "new":
 			s, buf = newState(RunOpt{})
+		case "skip": // an operation taken out of the history by the attribution (indices stay what they were)
 		case "print":
 			for _, e := range op.Exp {
 				r := mk(at, "session-inspect", e.N, e.F)
@@ -272,6 +279,28 @@ func fsInspect(s *eval.State, r *fsRec) {
 
 const sigFnSession = "fmt-function-value-depends-on-session-history"
 
+// sigSavedAlias: a named function held under another name is saved as  k=func g(..){..} ; loading that line binds g as well
+// as k, so a session in which g is bound to something else by now comes back with g bound to the function k holds.
+const sigSavedAlias = "fmt-saved-alias-of-named-function-rebinds-the-function-name"
+
+// fsAliasHazard: the bindings written by a save hold a named function under another name while that function's own name
+// is bound to something else.
+func fsAliasHazard(op fsOp) bool {
+	if op.Op != "save" {
+		return false
+	}
+	bound := map[string]fsFn{}
+	for _, e := range op.Exp {
+		bound[e.N] = e.F
+	}
+	for _, e := range op.Exp {
+		if own, ok := bound[e.F.Name]; e.F.Name != "" && e.F.Name != e.N && ok && own != e.F {
+			return true
+		}
+	}
+	return false
+}
+
 // fnSessionStart starts the TLC runs of FormatFnSession (the two deviations, which must be refuted, and the generator)
 // and returns the function that waits for them, replays the histories and returns the law records for Format_Trace.
 func (fr *fmtRun) fnSessionStart() func(base int) ([]J, error) {
@@ -280,31 +309,39 @@ func (fr *fmtRun) fnSessionStart() func(base int) ([]J, error) {
 		r   *TLCResult
 		err error
 	}
-	devs := []string{"text", "name"}
+	devs := []string{"text", "name", "alias"}
 	devCh := make([]chan res, len(devs))
-	for i, memo := range devs {
+	for i, dev := range devs {
 		devCh[i] = make(chan res, 1)
-		go func(i int, memo string) {
-			r, err := c.TLC(TLCOpt{Spec: "FormatFnSession", Cfg: fnSessCfg(false, memo, false), Workers: 1, AllowError: true})
+		go func(i int, dev string) {
+			cfg := fnSessCfg("quick", dev, "binds", false)
+			if dev == "alias" {
+				cfg = fnSessCfg("alias", "none", "defines", false)
+			}
+			r, err := c.TLC(TLCOpt{Spec: "FormatFnSession", Cfg: cfg, Workers: 1, AllowError: true})
 			devCh[i] <- res{r, err}
-		}(i, memo)
+		}(i, dev)
 	}
 	genCh := make(chan res, 1)
 	go func() {
-		r, err := c.TLC(TLCOpt{Spec: "FormatFnSession", Cfg: fnSessCfg(c.Thorough(), "none", true), Workers: 2})
+		bounds := "quick"
+		if c.Thorough() || os.Getenv("VERIF_FNSESS_BOUNDS") == "thorough" { // (the variable: debugging aid)
+			bounds = "thorough"
+		}
+		r, err := c.TLC(TLCOpt{Spec: "FormatFnSession", Cfg: fnSessCfg(bounds, "none", "binds", true), Workers: 2})
 		genCh <- res{r, err}
 	}()
 	return func(base int) ([]J, error) {
-		for i, memo := range devs {
+		for i, dev := range devs {
 			x := <-devCh[i]
 			if x.err != nil {
 				return nil, x.err
 			}
 			if x.r.InvViolated != "Faithful" {
-				return nil, fmt.Errorf("vacuous FormatFnSession: Memo=%s did not violate Faithful: %q %s", memo, x.r.InvViolated, x.r.ErrText)
+				return nil, fmt.Errorf("vacuous FormatFnSession: deviation %s did not violate Faithful: %q %s", dev, x.r.InvViolated, x.r.ErrText)
 			}
 		}
-		c.Cov("fn_session_design_counterexamples", "Memo=text and Memo=name violate Faithful (a printer that answers from a text remembered under less than the whole function value)")
+		c.Cov("fn_session_design_counterexamples", "Memo=text and Memo=name violate Faithful (a printer that answers from a text remembered under less than the whole function value); AliasLine=defines violates it with three definitions (func g ; h = g ; g = .. ; save + load: loading h = func g(..){..} binds g again)")
 		tWait := time.Now()
 		g := <-genCh
 		if g.err != nil {
@@ -433,6 +470,25 @@ func fsExpOf(r *fsRec) fsExp {
 // single function values.
 func fsAttribute(r *fsRec) (string, string) {
 	e := fsExpOf(r)
+	// an earlier save + load with the alias hazard: the same history with those saves taken out (the session stays in the
+	// interpreter it was in) - does the observation hold then?
+	hazard := false
+	without := append([]fsOp{}, r.Hist...)
+	for j := 0; j < r.At; j++ {
+		if fsAliasHazard(r.Hist[j]) {
+			hazard = true
+			without[j] = fsOp{Op: "skip"}
+		}
+	}
+	if hazard {
+		if recs, infra := fsReplay(without, r.Texts); infra == "" {
+			for i := range recs {
+				if recs[i].At == r.At && recs[i].Name == r.Name && fnLawGo(&recs[i].fnRec) {
+					return sigSavedAlias, "[the same history without the earlier save + load of a named function held under another name is written correctly]"
+				}
+			}
+		}
+	}
 	alone := r.Texts
 	alone.Tag = 900000 + r.Texts.Tag
 	var hist []fsOp
